@@ -20,7 +20,7 @@ RULE = ('operators (+ - * / ** neg ==, reflected with plain numbers), value(unit
         'distinct by (operation, operand kinds and units, follow-up steps)')
 SHARDS = {'quick': 16, 'thorough': 16}
 MIN_NONTRIVIAL = {'quick': 2500, 'thorough': 60000}
-REQUIRED_CLASSES = ['reflected-numpy', 'neutral-element-operand', 'op:+', 'op:-', 'op:*', 'op:/', 'op:==', 'op:pow', 'op:neg', 'op:getitem', 'op:value', 'op:ufunc', 'op:func',
+REQUIRED_CLASSES = ['kind:same-dimension-units-in-one-expression', 'reflected-numpy', 'neutral-element-operand', 'op:+', 'op:-', 'op:*', 'op:/', 'op:==', 'op:pow', 'op:neg', 'op:getitem', 'op:value', 'op:ufunc', 'op:func',
                     'reflected', 'kind:same-unit', 'kind:other-unit', 'kind:reciprocal', 'kind:nodim', 'kind:log', 'kind:temp',
                     'kind:decimal', 'kind:array', 'kind:uncertain', 'followup:to', 'followup:rebase', 'followup:abse', 'followup:rele',
                     'followup:write', 'followup-on-result', 'followup-on-operand', 'twin-probe', 'repo-tests-under-contracts']
@@ -49,6 +49,10 @@ FAM = {
     'angle': ['rad', 'deg', "'"],
     'freq': ['Hz', 's-1', 'kHz'],
     'nodim': [None, '%', None],
+    # compounds that hold two units of the same dimension (rebase() merges them)
+    'area': ['m2', 'cm*m', 'cm2', 'km*mm', 'in*ft'],
+    'energy-squared': ['J2', 'erg*J', 'kJ*eV'],
+    'speed-mixed': ['km*m/s/mm', 'm/s', 'cm*ms-1'],
 }
 RECIP = {'time': 'freq', 'freq': 'time'}
 LOGS = ['dBm', 'dBW', 'dB', 'dBV', 'Bm', 'dBSPL']
@@ -253,6 +257,8 @@ def _run(case, ctx):
     classes = ['kind:' + case['kind']]
     if isinstance(a_spec['v'], list) or isinstance(b_spec['v'], list):
         classes.append('kind:array')
+    if any(u in ('cm*m', 'km*mm', 'in*ft', 'erg*J', 'kJ*eV', 'km*m/s/mm', 'cm*ms-1') for u in (a_spec['u'], b_spec['u'])):
+        classes.append('kind:same-dimension-units-in-one-expression')
     if a_spec.get('abse') is not None or b_spec.get('abse') is not None:
         classes.append('kind:uncertain')
     if (b_spec['v'] in (0.0, 1.0) or b_spec['v'] == [1.0, 1.0, 1.0]) or (op['k'] == 'bin' and op['side'] != 'QQ' and op['num'] in (0, 1)):
